@@ -5,6 +5,7 @@ import (
 	"io"
 	"os"
 	"path/filepath"
+	"strconv"
 	"sync"
 	"sync/atomic"
 	"time"
@@ -100,7 +101,44 @@ func NewNode(w *World, self *Deputy, deputyCount int) *Node {
 	return n
 }
 
+// The engine arms a 30 s timer (FetchRemoteConfirms) on every stable block; until it fires it keeps the whole node reachable,
+// above all the two 2 MB channels every store allocates. A process that creates and destroys nodes at full speed therefore
+// sits on (nodes per second) x 30 s x about 5 MB. throttle keeps that below the budget the driver hands down
+// ($VERIF_NODE_BUDGET_MB for this process), so that many shards together never exhaust the machine.
+var (
+	throttleMu sync.Mutex
+	nodeBirths []time.Time
+)
+
+func throttle() {
+	budget := 2500
+	if v, err := strconv.Atoi(os.Getenv("VERIF_NODE_BUDGET_MB")); err == nil && v > 0 {
+		budget = v
+	}
+	maxNodes := budget / 5
+	if maxNodes < 20 {
+		maxNodes = 20
+	}
+	for {
+		throttleMu.Lock()
+		cut := time.Now().Add(-32 * time.Second)
+		i := 0
+		for i < len(nodeBirths) && nodeBirths[i].Before(cut) {
+			i++
+		}
+		nodeBirths = nodeBirths[i:]
+		if len(nodeBirths) < maxNodes {
+			nodeBirths = append(nodeBirths, time.Now())
+			throttleMu.Unlock()
+			return
+		}
+		throttleMu.Unlock()
+		time.Sleep(50 * time.Millisecond)
+	}
+}
+
 func (n *Node) open(fresh bool) {
+	throttle()
 	n.BecomeSelf()
 	n.DB = store.NewChainDataBase(n.Dir)
 	if n.autoGenesis {
